@@ -231,3 +231,41 @@ PROPS["C10"] = {
          "thorough": {"shards": 12, "checks": 24000, "cap": 7200, "shrinktime": "120s"}},
     ],
 }
+
+_HIST_ASSUME = [
+    "commands come from one template whose output is a deterministic function of (label, nonce, declared inputs by name and content, direct dependencies' declared outputs); expected outputs are computed by the harness from the abstract workspace, not by asking grog",
+    "the reference model is three-valued: MUST-NOT only when a successful result for the target's exact current state was recorded with caching on and nothing forces execution; MUST only when not even the state without output-less dependencies was ever built, or execution is forced; everything else MAY (never a violation)",
+    "dot-files, symlinked inputs, docker outputs, overlapping outputs and commands reading undeclared files are outside the generator",
+]
+
+def _hist(pid, rule, nt, quick=96, thorough=3000, extra_parts=None, floor=0.15):
+    parts = [{"name": "histories", "pkg": pid.lower(), "test": "TestHistories", "binary": True,
+              "quick": {"shards": 32, "checks": quick, "cap": 1500, "shrinktime": "90s"},
+              "thorough": {"shards": 48, "checks": thorough, "cap": 14400, "shrinktime": "300s"}}]
+    return {"level": "exploration", "rule": rule + " Non-trivial = " + nt + "; distinct by full history.", "assumptions": _HIST_ASSUME, "nt_floor": floor,
+            "parallel": 48, "parts": parts + (extra_parts or [])}
+
+PROPS["C01"] = _hist("C01",
+    "histories: a generated workspace (1-6 targets over 5 packages incl. prefix siblings and nested packages; glob / recursive-glob / exclude / missing-file inputs; file, multi-file, dir, bin outputs in not-yet-existing directories; 35% of edges through 1-2 aliases) "
+    "followed by 4-12 steps mixing builds (//... or one label/alias) with every edit kind: content edit (incl. revert to an earlier content), boundary shift between adjacent inputs, content swap, add/remove/rename a file under a glob, nonce (command) change, "
+    "fingerprint change, output rename, add/remove edge, edge re-routed through an alias, alias re-targeted. Real binary, one persistent cache. After every successful build the declared outputs of every selected target are compared byte-for-byte (and entry-for-entry for dir outputs, exec bits, symlinks) with the harness-computed expectation; every 4th successful build a from-scratch build in a pristine checkout must agree too; exit status, executed set (3-valued model), order and worker bound are checked on every build.",
+    "some build restored >=1 target from the cache after >=1 edit since the previous build")
+PROPS["C02"] = _hist("C02",
+    "histories: C01's workspaces with edits {content, nonce, boundary shift, add/rename file, fingerprint, re-route through alias} plus workspace perturbations between builds: declared output deleted, its parent directory deleted, truncated, overwritten with longer content, exec bit flipped, stale entry added inside a dir output, dir output replaced by a file; builds in both load_outputs modes, xxh3 and sha256, 1-8 workers. "
+    "The executed set of every build (S lines written by the commands themselves) must avoid every MUST-NOT target of the reference model and contain every MUST target; no-op rebuilds execute nothing.",
+    "a build restored a target after its workspace outputs were perturbed, or rebuilt only part of the selection")
+PROPS["C13"] = _hist("C13",
+    "histories: workspaces where targets may carry no-cache, steps {grog taint <label or //...>, toggle no-cache tag, content/nonce edits, builds with and without --enable-cache=false}. A tainted / no-cache / cache-disabled target must have an S line; after a successful forced run the taint is consumed (next build: MUST-NOT); dependants with a good entry whose dependency reproduced identical outputs are MUST-NOT.",
+    "a target was forced to run although a good entry for its state existed")
+PROPS["C14"] = _hist("C14",
+    "histories: targets carry 0-2 output checks over an external marker (outside the workspace, never an input; with and without expected_output; the command may or may not establish it), timeouts of 2 s; steps {destroy marker, set marker (right or wrong content), stop establishing, skip a declared output, make the command slow, clear switches, edits, builds}. "
+    "A target whose check fails before the cache decision must run; if checks still fail after execution, or an output is missing, or the timeout hits, the build must exit non-zero, name the target, skip dependants and record nothing (next build runs it again).",
+    "the history destroys a marker, skips an output or triggers a timeout", quick=96)
+PROPS["C05"] = _hist("C05",
+    "histories: failing subsets chosen through undeclared switch files (exit 3, missing declared output, timeout, failing check) so that cache keys do not move, keep-going and --fail-fast builds, follow-up builds with switches cleared. Keep-going: every target without a failed transitive dependency runs or is restored, no dependant of a failed target has an S line, exit != 0, failed labels named; the follow-up build must run every previously failed target again (nothing was cached).",
+    "a build with a failing target that has both a selected dependant and a selected independent target",
+    extra_parts=[{"name": "walker", "pkg": "c05", "test": "TestWalkerContainment",
+                  "quick": {"shards": 8, "checks": 3000, "cap": 900}, "thorough": {"shards": 16, "checks": 60000, "cap": 7200}}])
+PROPS["C15"] = _hist("C15",
+    "lock-step histories: every build of a C01-style history (all edit kinds, taint, aliases, dir and bin outputs) is played twice: load_outputs=all and load_outputs=minimal in separate workspaces and caches. Exit status and executed set must be equal; every output of a target executed under minimal must equal the expectation (so every dependency output it read, also through aliases, was present and current).",
+    "a minimal-mode build executed a target while >=1 of its direct dependencies was a cache hit (outputs had to be loaded on demand)", quick=64, thorough=1500)
